@@ -257,7 +257,9 @@ func c13TemplateYaml(r *rand.Rand) Case {
 		{"  {{ .a }} and {{ .b }} \n", true, false},
 		{"  {{ .a }} and {{ .b }} \n", false, false},
 		{"a: {{ .a }}\n", false, true},
-	}[r.Intn(6)]
+		{"app.kubernetes.io/name: {{ .b }}\nlabels: {tier.v1: {{ .a }}, plain: 2}\nl: [{a.b: 1}]\n", false, true}, // member names are names, dots and all
+		{"application.properties: {{ .a }}\n\"\": {{ .b }}\n", true, true},
+	}[r.Intn(8)]
 	{
 		d2 := anyToContainer(map[string]any{"a": "1", "b": "x"})
 		top := &pipeline.TemplateOp{Template: tv.tmpl, Path: "out", Trim: &tv.trim}
@@ -294,6 +296,9 @@ func c13TemplateYaml(r *rand.Rand) Case {
 func c13Patch(r *rand.Rand) Case {
 	o := c13Opts()
 	o.nulls = false
+	if r.Intn(4) == 0 { // member names ending in the characters a pointer escapes
+		o.keys = []string{"a", "v2/", "tmp~", "b", "~", "k1", "/"}
+	}
 	data := genDoc(r, o)
 	rp := c09GenOp(r, data, o)
 	if r.Intn(8) == 0 { // a pointer ending in "/" addresses the member named "" (RFC 6901), not its parent
